@@ -1192,6 +1192,11 @@ fn gen_c03(rng: &mut Rng, out: &mut Vec<Case>) {
                 if i == fp {
                     let f = if late { rng.pick(&fails_late).clone() } else { rng.pick(&fails_first).clone() };
                     ops.push(format!("s1 {}", f));
+                    if late && rng.chance(1, 2) {
+                        // another transaction takes a key the failed statement had inserted before it failed: the key
+                        // must not have stayed in s1's write set (s1's commit is not refused because of it)
+                        ops.push("s3 begin ; s3 ins u 71 55 ; s3 commit".into());
+                    }
                 } else {
                     ops.push(format!("s1 {}", ok_stmts(rng, &mut ctr)));
                 }
